@@ -111,9 +111,9 @@ def _(m, callee, args):
     return ValRef(v)
 
 
-@model(r'^<.* as AsRef<Path>>::as_ref$')
+@model(r'^<.* as AsRef<Path>>::as_ref$|^<.* as AsRef<OsStr>>::as_ref$|^<.* as AsRef<str>>::as_ref$')
 def _(m, callee, args):
-    return ValRef(deref_all(m, args[0]))
+    return ValRef(rstr(m, args[0]))
 
 
 @model(r'^Path::join::<')
@@ -316,11 +316,11 @@ def _(m, callee, args):
     return ('fmtargs', tmpl, list(fa))
 
 
-@model(r'^format$')
-def _(m, callee, args):
-    if args[0][0] == 'fmtargs_str':
-        return RStr(args[0][1].cs)
-    _, tmpl, fa = args[0]
+def render_fmt(m, a):
+    """text of a core::fmt::Arguments value"""
+    if a[0] == 'fmtargs_str':
+        return list(a[1].cs)
+    _, tmpl, fa = a
     out, i, argi = [], 0, 0
     b = tmpl
     while i < len(b):
@@ -332,12 +332,30 @@ def _(m, callee, args):
             i += 1 + t
         elif t == 0xC0:
             x = fa[argi][1]
-            out.extend(x.cs if isinstance(x, RStr) else [63])
+            if isinstance(x, RStr):
+                out.extend(x.cs)
+            elif isinstance(x, int) or is_sym(x):
+                out.append(x)            # char
+            else:
+                raise Unsupported(f'Display of {x!r}')
             argi += 1
             i += 1
         else:
             raise Unsupported(f'fmt template opcode {t:#x}')
-    return RStr(out)
+    return out
+
+
+@model(r'^format$')
+def _(m, callee, args):
+    return RStr(render_fmt(m, args[0]))
+
+
+@model(r'^<String as (std::fmt::)?Write>::write_fmt$')
+def _(m, callee, args):
+    r = args[0]
+    s = rstr(m, r)
+    m.write_place(r.frame, r.place, RStr(s.cs + render_fmt(m, args[1])))
+    return Enum(0, [()], 'Ok')
 
 
 @model(r'^must_use::<String>$')
@@ -389,3 +407,44 @@ def _(m, callee, args):
     v = deref_all(m, args[0])
     items = v.items if isinstance(v, RVec) else v
     return (len(items) == 0) if callee.endswith('is_empty') else len(items)
+
+
+@model(r'^(std::env::)?var::<')
+def _(m, callee, args):
+    name = ''.join(chr(c) for c in deref_all(m, args[0]).cs)
+    v = m.env.get('env', {}).get(name)
+    if v is None:
+        return Enum(1, [('varerror', 'NotPresent')], 'Err')
+    return Enum(0, [RStr(list(v))], 'Ok')
+
+
+@model(r'^Path::new::<')
+def _(m, callee, args):
+    return ValRef(deref_all(m, args[0]))
+
+
+@model(r'^<Cow<.*> as (std::ops::)?Deref>::deref$')
+def _(m, callee, args):
+    v = deref_all(m, args[0])
+    if isinstance(v, Enum) and v.name in ('Borrowed', 'Owned'):
+        v = deref_all(m, v.fields[0])
+    return ValRef(v)
+
+
+@model(r'^Path::file_name$')
+def _(m, callee, args):
+    comps = components(m, rstr(m, args[0]))
+    if not comps or comps[-1].disc != 4:
+        return Enum(0, [], 'None')
+    return Enum(1, [comps[-1].fields[0]], 'Some')
+
+
+@model(r'^(std::ffi::)?OsStr::to_str$|^Path::to_str$')
+def _(m, callee, args):
+    return Enum(1, [ValRef(rstr(m, args[0]))], 'Some')
+
+
+@model(r'^<(String|PathBuf|str|Path|OsStr|OsString) as PartialEq(<.*>)?>::(eq|ne)$|^<&(str|String) as PartialEq<.*>>::(eq|ne)$')
+def _(m, callee, args):
+    same = str_eq(m, rstr(m, args[0]), rstr(m, args[1]))
+    return same if callee.endswith('eq') else not same
